@@ -246,6 +246,7 @@ class Run(object):
             if akind == 'alloc_null':
                 return ffi.cast('char *', 0)
             base = ffi.new('char[]', size + 8)
+            ffi.memmove(base, b'\xaa' * (size + 8), size + 8)    # dirty: should_clear_after_alloc must zero it
             st['base_id'] = id(base)     # valid while the allocation object keeps 'base' alive
             return base
 
@@ -328,7 +329,7 @@ class Run(object):
             if dkind == 'raises':
                 raise RuntimeError('injected destructor failure')
 
-        w = self.ffi.gc(x, d)
+        w = self.ffi.gc(x, d, size=(xid % 3) * 4096) if (xid // 16) % 2 else self.ffi.gc(x, d)
         n = self.g.add(edges=[xnode], cyclic=(dkind == 'cyc'))
         src = self.info[xnode]
         self.rec(n, kind='gc', armed=True, wr=weakref.ref(w), block=src.get('block'), orig=xnode,
@@ -380,6 +381,12 @@ class Run(object):
         try:
             if how == 'with':
                 with s['obj']:
+                    pass
+            elif how == 'with_raise':
+                try:
+                    with s['obj']:
+                        raise KeyError('inside the with block')
+                except KeyError:
                     pass
             else:
                 self.ffi.release(s['obj'])
@@ -479,6 +486,25 @@ class Run(object):
         else:
             self.out.probe('from_buffer_is_only_owner_of_source')
 
+    def op_frombuf_again(self, k, default_decl):
+        """another from_buffer cdata on a source that is already exported (released later in any order)"""
+        i = self.pick(k, lambda s: s['kind'] == 'src' and self.info[s['node']]['srckind'] == 'ba')
+        if i is None:
+            return
+        s = self.slots[i]
+        sn = s['node']
+        if default_decl:
+            cd = self.ffi.from_buffer(s['obj'])            # cdecl omitted: 'char[]'
+            if len(cd) != len(s['obj']):
+                raise Violation('C21.5', 'from_buffer(obj) has %d items for a %d-byte object' % (len(cd), len(s['obj'])))
+        else:
+            cd = self.ffi.from_buffer('char[]', s['obj'])
+        n = self.g.add(edges=[sn])
+        self.rec(n, kind='frombuf', wr=weakref.ref(cd), srcnode=sn)
+        self.info[sn]['exports'].append(n)
+        self.add_slot(n, cd, 'frombuf')
+        self.out.probe('several_from_buffer_cdata_on_one_source')
+
     def op_resize(self, k):
         i = self.pick(k, lambda s: s['kind'] == 'src' and self.info[s['node']]['srckind'] == 'ba')
         if i is None:
@@ -537,7 +563,7 @@ class Run(object):
         s = self.slots[i]
         r = self.info[s['node']]
         h = s['obj']
-        arg = h if via == 'direct' else self.ffi.cast('void *', h)
+        arg = h if via == 'direct' else self.ffi.cast('char *' if via == 'castchar' else 'void *', h)
         o = self.ffi.from_handle(arg)
         want = self.info[r['payload']]['wr']()
         if o is not want:
@@ -732,6 +758,8 @@ class Run(object):
             self.op_frombuf(op[1], op[2], op[3], op[4])
         elif name == 'resize':
             self.op_resize(op[1])
+        elif name == 'frombuf2':
+            self.op_frombuf_again(op[1], op[2])
         elif name == 'handle':
             self.op_handle(op[1])
         elif name == 'hcycle':
@@ -791,7 +819,7 @@ class Run(object):
 
 
 OPS_W = [('new', 10), ('anew', 8), ('gc', 12), ('gcnone', 4), ('release', 10), ('frombuf', 8),
-         ('resize', 5), ('handle', 5), ('hcycle', 1), ('fromh', 6), ('deref', 6), ('alias', 3), ('bufview', 3),
+         ('resize', 5), ('frombuf2', 3), ('handle', 5), ('hcycle', 1), ('fromh', 6), ('deref', 6), ('alias', 3), ('bufview', 3),
          ('write', 6), ('read', 8), ('drop', 14), ('cycle', 5), ('collect', 6), ('churn', 3),
          ('gremlin', 2)]
 
@@ -856,18 +884,20 @@ class C21(core.Check):
             elif name in ('gcnone', 'resize', 'deref', 'alias', 'bufview', 'write', 'read', 'drop', 'cycle'):
                 ops.append([name, k])
             elif name == 'release':
-                ops.append(['release', k, rng.choice(['release', 'with'])])
+                ops.append(['release', k, rng.choice(['release', 'with', 'with_raise'])])
             elif name == 'frombuf':
                 ops.append(['frombuf', rng.weighted([('ba', 6), ('pep_ok', 4), ('pep_refuse', 1), ('pep_ro', 2),
                                                      ('bytes', 1), ('mv_noncontig', 1)]),
                             rng.weighted([('chararr', 3), ('longarr', 3), ('fixed', 2), ('toobig', 1)]),
                             rng.chance(0.4), rng.chance(0.6)])
+            elif name == 'frombuf2':
+                ops.append(['frombuf2', k, rng.chance(0.5)])
             elif name == 'handle':
                 ops.append(['handle', rng.chance(0.5)])
             elif name == 'hcycle':
                 ops.append(['hcycle'])
             elif name == 'fromh':
-                ops.append(['fromh', k, rng.choice(['direct', 'cast'])])
+                ops.append(['fromh', k, rng.choice(['direct', 'cast', 'castchar'])])
             elif name == 'collect':
                 ops.append(['collect'])
             elif name == 'churn':
